@@ -120,6 +120,53 @@ def selftest(ctx, exe, cmd, path, mutate, what):
         ctx.cov(binding_selftests_rejected=n)
 
 
+def obs_validate(ctx, sd, module, cfg, tag, trace, what, sig):
+    """observation-only trace validation: TLC evaluates the property on every observed state (Check* constraint of
+    the Obs_* module prints @@BADxx <line> for the first state on which it is false)"""
+    import shutil
+    dst = os.path.join(sd, "trace.ndjson")
+    if os.path.abspath(trace) != os.path.abspath(dst):
+        shutil.copy(trace, dst)
+    r = ctx.tlc(sd, module, cfg, workers=1, timeout=1500, count=False, allow=("postcondition",))
+    lines = open(dst).read().splitlines()
+    if r.error == "postcondition":
+        ctx.broken.append("%s: the observation specification stopped at line %s of %d: %s"
+                          % (what, r.highwater, len(lines), (lines[r.highwater - 1][:300] if r.highwater and r.highwater <= len(lines) else "")))
+        return None
+    if not r.ok:
+        return None
+    bad = r.marks.get(tag)
+    if bad is not None:
+        ln = int(bad)
+        ev = lines[ln - 1] if 1 <= ln <= len(lines) else ""
+        try:
+            a = json.loads(ev).get("a", "?")
+        except ValueError:
+            a = "?"
+        ctx.violation("%s/after-%s" % (sig, a),
+                      "%s: the property is false on the state observed after line %d of the recorded trace: %s"
+                      % (what, ln, ev[:1200]), {"trace_file": vlib.keep_file(ctx, dst), "line": ln, "event": ev[:4000]})
+        return ln
+    ctx.cov(trace_events_validated=len(lines))
+    return 0
+
+
+def obs_selftest(ctx, sd, module, cfg, tag, trace, mutate, what):
+    """binding self-test of the trace channel: a corrupted observation must make the property fail"""
+    evs = [json.loads(x) for x in open(trace).read().splitlines() if x.strip()]
+    if not mutate(evs):
+        ctx.broken.append("trace self-test (%s): nothing to corrupt" % what)
+        return
+    with open(os.path.join(sd, "trace.ndjson"), "w") as f:
+        for e in evs:
+            f.write(json.dumps(e) + "\n")
+    r = ctx.tlc(sd, module, cfg, workers=1, timeout=900, count=False, allow=("postcondition",))
+    if r.marks.get(tag) is None:
+        ctx.broken.append("trace self-test (%s): the corrupted trace passed" % what)
+    else:
+        ctx.cov(binding_selftests_rejected=1)
+
+
 def vacuity(ctx, r, what):
     if r.coverage_zero:
         ctx.broken.append("vacuity guard (%s): actions never taken: %s" % (what, ", ".join(sorted(set(r.coverage_zero)))))
@@ -210,6 +257,34 @@ def run_accounts(ctx):
     ctx.tlc(sd, "MC_Accounts", "sim.cfg", simulate=150 if qk else 3000, depth=16, timeout=1500, behaviours_out=sim)
     replay(ctx, exe, "replay", sim)
 
+    # ---- R3: random histories on the real AccountsDB (6 accounts, 3 codes, 4 keys; removal followed by re-creation
+    # favoured) -> TLC evaluates the property on every observed state (Obs_Accounts.tla, no implementation model);
+    # thorough: the same trace must also be a behaviour of Accounts.tla (Trace_Accounts.tla; divergence = drift)
+    tr = ctx.path("trace.ndjson")
+    nt, ln = (25, 40) if qk else (150, 60)
+    r3 = ctx.vh(exe, ["record", ctx.seed, nt, ln, tr])
+    tag = "BADC06" if c06 else "BADC07"
+    res = obs_validate(ctx, sd, "Obs_Accounts", "Obs_C06.cfg" if c06 else "Obs_C07.cfg", tag, tr,
+                       "random history on the real AccountsDB", "%s/trace" % ctx.prop)
+    if res == 0:
+        ctx.cov(traces_validated_against_impl=nt, evaluations=int(r3.stats.get("events", 0)))
+        if not qk:
+            vlib.validate_trace(ctx, sd, "Trace_Accounts", "Trace_Accounts.cfg", tr, int(r3.stats.get("events", 0)),
+                                "%s/trace-strict" % ctx.prop, divergence_is_violation=False, timeout=1500,
+                                what="random history on the real AccountsDB")
+
+            def corrupt_trace(evs):
+                for e in evs:
+                    if c06 and e["a"] == "Revert" and not e["out"]["err"] and e["i"] > 3:
+                        e["st"]["acc"]["A"]["nonce"] += 1
+                        return True
+                    if not c06 and e["a"] == "Save" and e["in"]["code"] not in ("keep", ""):
+                        e["st"]["code"][e["in"]["code"]]["refs"] += 1
+                        return True
+                return False
+            obs_selftest(ctx, sd, "Obs_Accounts", "Obs_C06.cfg" if c06 else "Obs_C07.cfg", tag, tr, corrupt_trace,
+                         "observed state of one event changed")
+
     # ---- binding self-test
     if not qk and first:
         def corrupt(b):
@@ -297,6 +372,23 @@ def run_storage(ctx):
     sim = ctx.path("sim8.ndjson")
     ctx.tlc(sd, "MC_DataTrie", "sim.cfg", simulate=200 if qk else 4000, depth=14, timeout=1500, behaviours_out=sim)
     replay(ctx, exe, "replay8", sim)
+
+    # ---- R3: random writes with arbitrary caller slices on the real tracker -> TLC evaluates C08 on every observed state
+    tr = ctx.path("trace8.ndjson")
+    nt, ln = (30, 40) if qk else (300, 60)
+    r3 = ctx.vh(exe, ["record8", ctx.seed, nt, ln, tr])
+    res = obs_validate(ctx, sd, "Obs_DataTrie", "Obs_C08.cfg", "BADC08", tr,
+                       "random caller slices on the real TrackableDataTrie", "C08/trace")
+    if res == 0:
+        ctx.cov(traces_validated_against_impl=nt, evaluations=int(r3.stats.get("events", 0)))
+        if not qk:
+            def corrupt_trace(evs):
+                for e in evs:
+                    if e["a"] == "Write" and e["in"]["vb"]:
+                        e["st"]["read"][e["in"]["k"]][0] ^= 1
+                        return True
+                return False
+            obs_selftest(ctx, sd, "Obs_DataTrie", "Obs_C08.cfg", "BADC08", tr, corrupt_trace, "one read byte flipped")
 
     # ---- sizes up to the leaf-size limit (expected outcome from the specification's LeafLimit operator)
     dt_cfg(sd, "limits.cfg", spec="LimitSpec", log="LogAppend", depth=2, rest="ACTION_CONSTRAINT EmitEdge")
